@@ -27,7 +27,7 @@ LEVEL_NOTE = ('bounded depth; one process, no concurrent writers or I/O faults; 
               'which is what the canonical state contains; trusted: the reference model in mc/props/c03.py and the comparison code shared with C02')
 RULE = ('BFS over histories: initial states x operation menu, depth-bounded; a state is expanded once per shard (canonical hash of all file bytes + object fields). '
         'evaluations = transitions executed (each by replaying its whole history on fresh real objects); distinct_nontrivial = distinct canonical successor states.')
-ASSUMPTIONS = ['wall clock replaced by a fixed clock (timestamps in comments are not part of the property)',
+ASSUMPTIONS = ['a second pre-existing file with the same table/column names but different column types can be opened at any point (operation open)', 'wall clock replaced by a fixed clock (timestamps in comments are not part of the property)',
                'appended pairs use fresh keys; appended rows come from a per-table menu indexed by the current row count']
 MIN_OUTCOMES = 4
 
@@ -44,10 +44,16 @@ ROWMENU = {
              ['#', [3, 4], ['e', '']], ['trail ', [5, 6], ['it', 'is']], [' lead', [7, 8], ['a;b', 'zz']],
              ['z', [9, 10], ['u', 'v']], ['y', [11, 12], ['w', 'x']]],
 }
+TAB1_O = {'name': 'TAB1', 'menu': 'TAB1_O', 'cols': [['i', 'long'], ['x', 'float[2]'], ['s', 'char[2][4]'], ['u', 'char[8]']]}
+TAB2_O = {'name': 'tab2', 'menu': 'TAB2_O', 'cols': [['name', 'int'], ['arr', 'double'], ['tags', 'char[6]']]}
+ROWMENU['TAB1_O'] = [[9223372036854775807, [0.5, -1.5], ['ab', 'c d'], 'w'], [-5, [0.1, 2.5], ['', 'x'], 'a b'], [6, [1.0, 2.0], ['q', 'r'], ''],
+                     [7, [3.0, 4.0], ['s', 't'], '#'], [8, [5.0, 6.0], ['u', 'v'], 'zz']]
+ROWMENU['TAB2_O'] = [[3, 0.25, 'ab'], [-4, 1.0 / 3.0, 'c d'], [5, 1e300, ''], [6, -0.0, 'a#b'], [7, 2.5, 'x']]
+OTHER = 'other.par'
 INITS = [
-    {'structs': [TAB1], 'nrows': [1], 'pairs': []},
-    {'structs': [TAB2], 'nrows': [1], 'pairs': []},
-    {'structs': [TAB1, TAB2], 'nrows': [1, 0], 'pairs': [['mjd', '54579'], ['alpha', 'beta gamma']]},
+    {'structs': [TAB1], 'nrows': [1], 'pairs': [], 'other': [TAB1_O]},
+    {'structs': [TAB2], 'nrows': [1], 'pairs': [], 'other': [TAB2_O]},
+    {'structs': [TAB1, TAB2], 'nrows': [1, 0], 'pairs': [['mjd', '54579'], ['alpha', 'beta gamma']], 'other': [TAB1_O, TAB2_O]},
 ]
 F0 = 'orig.par'
 CANON_LAYOUT = {'eol': '\n', 'cmt': 'header', 'trail': False, 'blank': 'blocks', 'sep': 'one', 'cont': 'none', 'sstyle': 'bare',
@@ -56,7 +62,7 @@ CANON_LAYOUT = {'eol': '\n', 'cmt': 'header', 'trail': False, 'blank': 'blocks',
 
 def ops_menu(nt):
     ops = [['write', 'A.par'], ['write', 'B.par'], ['write', None], ['write', F0], ['append_pairs'], ['append_empty'],
-           ['rebind_missing'], ['re_read']]
+           ['rebind_missing'], ['re_read'], ['open', OTHER], ['open', F0]]
     for t in range(nt):
         for form in ('lists', 'recarray'):
             for key in ('upper', 'lower'):
@@ -68,30 +74,40 @@ def ops_menu(nt):
 
 
 # ------------------------------------------------------------------ reference model
+def _menu(s):
+    return ROWMENU[s.get('menu', s['name'].upper())]
+
+
 class Model:
+    """Object content (structs, pairs, rows), the file it is bound to, and the logical content of every file."""
+
     def __init__(self, init, raw):
+        self.raw = raw
         self.structs = init['structs']
         self.pairs = [list(p) for p in init['pairs']]
-        self.rows = [[ROWMENU[s['name'].upper()][k] for k in range(n)] for s, n in zip(self.structs, init['nrows'])]
+        self.rows = [[_menu(s)[k] for k in range(n)] for s, n in zip(self.structs, init['nrows'])]
         self.filename = F0
-        self.raw = raw
         self.files = {F0: self.snapshot()}
+        # a second, pre-existing file: same table and column names, different column types
+        self.files[OTHER] = {'structs': init['other'], 'pairs': [['note', 'other file']],
+                             'rows': [[_menu(s)[0]] for s in init['other']]}
 
     def snapshot(self):
-        return {'pairs': copy.deepcopy(self.pairs), 'rows': copy.deepcopy(self.rows)}
+        return {'structs': self.structs, 'pairs': copy.deepcopy(self.pairs), 'rows': copy.deepcopy(self.rows)}
 
     def doc(self, snap=None):
         snap = snap or self.snapshot()
-        return {'id': 'model', 'pairs': snap['pairs'], 'enums': [], 'structs': self.structs,
+        return {'id': 'model', 'pairs': snap['pairs'], 'enums': [], 'structs': snap['structs'],
                 'rows': [[ti, r] for ti, rows in enumerate(snap['rows']) for r in rows]}
 
     def next_rows(self, t, n):
-        menu = ROWMENU[self.structs[t]['name'].upper()]
+        menu = _menu(self.structs[t])
         k = len(self.rows[t])
         return [menu[(k + j) % len(menu)] for j in range(n)]
 
     def next_pair(self):
-        return ['key%d' % len(self.pairs), 'value %d' % len(self.pairs)]
+        n = len(self.pairs)
+        return ['key%d' % n, ['value %d' % n, 54580 + n, n + 0.5][n % 3]]      # str, int and float values
 
     def apply(self, op):
         """Return expected result class: 'ok', 'refused:<Exc>', 'warned'."""
@@ -107,7 +123,8 @@ class Model:
             if self.filename not in self.files:
                 return 'refused:PydlutilsException'
             if kind in ('append_pairs', 'append_rows_pairs'):
-                self.pairs.append(self.next_pair())
+                k, v = self.next_pair()
+                self.pairs.append([k, str(v)])
             if kind != 'append_pairs':
                 t = op[1]
                 n = op[4] if kind == 'append_rows' else 1
@@ -121,6 +138,13 @@ class Model:
             return 'ok'
         if kind == 're_read':
             return 'ok'
+        if kind == 'open':
+            snap = self.files[op[1]]
+            self.structs = snap['structs']
+            self.pairs = copy.deepcopy(snap['pairs'])
+            self.rows = copy.deepcopy(snap['rows'])
+            self.filename = op[1]
+            return 'ok'
         raise ValueError(op)
 
     def enabled(self, op):
@@ -128,6 +152,8 @@ class Model:
             return 'missing.par' not in self.files and self.filename != 'missing.par'
         if op[0] == 're_read':
             return self.filename in self.files
+        if op[0] == 'open':
+            return op[1] in self.files and op[1] != self.filename
         return True
 
 
@@ -139,6 +165,8 @@ class World:
         text = c02.render(self.model.doc(), CANON_LAYOUT)
         with open(os.path.join(d, F0), 'w') as f:
             f.write(text)
+        with open(os.path.join(d, OTHER), 'w') as f:
+            f.write(c02.render(self.model.doc(self.model.files[OTHER]), CANON_LAYOUT))
         self.y = yanny(os.path.join(d, F0), raw=raw)
         self.raw = raw
 
@@ -167,7 +195,7 @@ class World:
             else:
                 dt = []
                 for cn, ct in s['cols']:
-                    base = {'int': 'i4', 'double': 'f8', 'char': 'S8'}[ct.split('[')[0]]
+                    base = {'int': 'i4', 'long': 'i8', 'double': 'f8', 'float': 'f4', 'char': 'S8'}[ct.split('[')[0]]
                     if ct.startswith('char'):
                         base = 'S' + (ct[ct.rfind('[') + 1:ct.rfind(']')] or '16')
                         dt.append((cn, base, (2,)) if ct.count('[') == 2 else (cn, base))
@@ -198,6 +226,8 @@ class World:
                     self.y.filename = os.path.join(self.d, 'missing.par')
                 elif kind == 're_read':
                     self.y = yanny(self.y.filename, raw=self.raw)
+                elif kind == 'open':
+                    self.y = yanny(os.path.join(self.d, op[1]), raw=self.raw)
                 else:
                     self.y.append(data)
             if any(issubclass(x.category, PydlutilsUserWarning) for x in w):
@@ -258,7 +288,7 @@ def step_and_check(world, op):
                 bad.append(('%s:earlier-bytes-not-preserved' % kind, 'file %s' % n))
         elif a != b:
             bad.append(('%s:other-file-changed' % kind, 'file %s changed (result %s)' % (n, exp)))
-    if exp != 'ok' and kind != 're_read':
+    if exp != 'ok' and kind not in ('re_read', 'open'):
         if obj_snapshot(world.y) != obj_before:
             bad.append(('%s:object-changed-by-%s' % (kind, exp.split(':')[0]), ''))
     # object == model
